@@ -1863,6 +1863,11 @@ fn main_tcp_random(args: &[String]) {
                     let h = rng.random_range(1..nh);
                     let (cn, sn) = (hostname(h, nh), "srv".to_string());
                     if *held.get(&h).unwrap_or(&false) {
+                        // sometimes: hold, (writes), repair, release - repair makes the link healthy
+                        // without releasing what is held, the release must still reschedule it
+                        if rng.random_bool(0.4) && part.get(&h).map(|p| p == "none").unwrap_or(true) {
+                            tcp_do(&mut run, &json!({"a":"repair","h":h,"norehold":true}), &mut conn_host, 0);
+                        }
                         run.sim.release(cn, sn);
                         held.insert(h, false);
                     } else if part.get(&h).map(|p| p == "none").unwrap_or(true) {
@@ -2001,6 +2006,13 @@ fn main_tcp_random(args: &[String]) {
             }
             for _ in 0..(2 * lmax / tick + 6) {
                 run.step();
+            }
+            let stuck: Vec<u64> = run.links().iter().map(|m| m.c).collect();
+            if !stuck.is_empty() {
+                let mut cs = stuck.clone();
+                cs.sort();
+                cs.dedup();
+                run.trace.push(json!({"ev":"overdue","cs":cs}));
             }
             for round in 0..8 {
                 if run.links().is_empty() {
